@@ -140,18 +140,29 @@ impl PieceType for Pawn {
             let dest = BitBoard::from(Pos::new(ep_file, dest_rank));
             let capture_pawn = Pos::new(ep_file, rank);
 
-            // if the opponent's pawn is checking the king (and the only piece checking the king)
-            // or if the there is no check and the opponent's pawn doesn't block a check against our king
-            // then we can capture it via en-passant with any unpinned pawn on the same rank and adjacent file as the
-            // opponent's pawn
-            if check_mask.contains(capture_pawn) && !board.pinned.contains(capture_pawn) {
-                for src in BitBoard::from(rank) & files & pieces & !board.pinned {
-                    unsafe {
-                        movelist.push_unchecked(LegalMovesAt {
-                            src,
-                            moves: dest,
-                            promotion: false,
-                        });
+            // The capture removes both pawns from their squares and puts the capturer on `dest`, so pin
+            // flags of the single pieces cannot decide it: test the king against the occupancy after the
+            // capture. Any check that is not given by the captured pawn itself must be a slider check that
+            // the capturer blocks on `dest`.
+            let victim = BitBoard::from(capture_pawn);
+            let opp = board.raw[!board.turn] - victim;
+            let rooks = (board.raw[Piece::Rook] | board.raw[Piece::Queen]) & opp;
+            let bishops = (board.raw[Piece::Bishop] | board.raw[Piece::Queen]) & opp;
+
+            if (board.checkers - victim - rooks - bishops).none() {
+                for src in BitBoard::from(rank) & files & pieces {
+                    let occupied = (combined - BitBoard::from(src) - victim) | dest;
+
+                    if (chess_lookup::rook_moves(king_sq, occupied) & rooks).none()
+                        && (chess_lookup::bishop_moves(king_sq, occupied) & bishops).none()
+                    {
+                        unsafe {
+                            movelist.push_unchecked(LegalMovesAt {
+                                src,
+                                moves: dest,
+                                promotion: false,
+                            });
+                        }
                     }
                 }
             }
